@@ -135,13 +135,42 @@ pub mod openssl {
             (k.id == Id::RSA ==> k.curve is None) && (k.id == Id::EC ==> k.rsa_size == 0)
             && (k.id != Id::RSA && k.id != Id::EC ==> k.rsa_size == 0 && k.curve is None)
         }
+        // the serialised forms of a private key (functions of the key), and what each reader takes:
+        // the traditional DER (i2d_PrivateKey), the PKCS#8 DER, the PKCS#8 PEM, the traditional PEM, the public key PEM
+        pub uninterp spec fn kind_of_ident(ident: int) -> KeyKind;
+        pub uninterp spec fn trad_der(ident: int) -> Seq<u8>;
+        pub uninterp spec fn pkcs8_der(ident: int) -> Seq<u8>;
+        pub uninterp spec fn pkcs8_pem(ident: int) -> Seq<u8>;
+        pub uninterp spec fn trad_pem(ident: int) -> Seq<u8>;
+        pub uninterp spec fn public_pem(ident: int) -> Seq<u8>;
         impl PKey<Private> {
+            // d2i_AutoPrivateKey: the traditional and the PKCS#8 form, and the key that comes out is the one that was written
             #[verifier::external_body]
             pub fn private_key_from_der(d: &[u8]) -> (r: Result<PKey<Private>, ErrorStack>)
-                ensures r matches Ok(k) ==> kind_consistent(k.kind@) { unimplemented!() }
+                ensures r matches Ok(k) ==> kind_consistent(k.kind@),
+                    r matches Ok(k) ==> k.kind@ == kind_of_ident(k.ident@),
+                    forall|id: int| #![trigger trad_der(id)] #![trigger pkcs8_der(id)] d@ == trad_der(id) || d@ == pkcs8_der(id) ==> (r matches Ok(k) && k.ident@ == id) { unimplemented!() }
+            // PKCS#8 only
+            #[verifier::external_body]
+            pub fn private_key_from_pkcs8(d: &[u8]) -> (r: Result<PKey<Private>, ErrorStack>)
+                ensures r matches Ok(k) ==> kind_consistent(k.kind@),
+                    r matches Ok(k) ==> k.kind@ == kind_of_ident(k.ident@),
+                    forall|id: int| d@ == #[trigger] pkcs8_der(id) ==> (r matches Ok(k) && k.ident@ == id) { unimplemented!() }
             #[verifier::external_body]
             pub fn private_key_from_pem(d: &[u8]) -> (r: Result<PKey<Private>, ErrorStack>)
-                ensures r matches Ok(k) ==> kind_consistent(k.kind@) { unimplemented!() }
+                ensures r matches Ok(k) ==> kind_consistent(k.kind@),
+                    r matches Ok(k) ==> k.kind@ == kind_of_ident(k.ident@),
+                    forall|id: int| #![trigger pkcs8_pem(id)] #![trigger trad_pem(id)] d@ == pkcs8_pem(id) || d@ == trad_pem(id) ==> (r matches Ok(k) && k.ident@ == id) { unimplemented!() }
+        }
+        impl<T> PKey<T> {
+            #[verifier::external_body]
+            pub fn private_key_to_der(&self) -> (r: Result<Vec<u8>, ErrorStack>) ensures r matches Ok(v) ==> v@ == trad_der(self.ident@) { unimplemented!() }
+            #[verifier::external_body]
+            pub fn private_key_to_pkcs8(&self) -> (r: Result<Vec<u8>, ErrorStack>) ensures r matches Ok(v) ==> v@ == pkcs8_der(self.ident@) { unimplemented!() }
+            #[verifier::external_body]
+            pub fn private_key_to_pem_pkcs8(&self) -> (r: Result<Vec<u8>, ErrorStack>) ensures r matches Ok(v) ==> v@ == pkcs8_pem(self.ident@) { unimplemented!() }
+            #[verifier::external_body]
+            pub fn public_key_to_pem(&self) -> (r: Result<Vec<u8>, ErrorStack>) ensures r matches Ok(v) ==> v@ == public_pem(self.ident@) { unimplemented!() }
         }
         impl<T> PKey<T> {
             #[verifier::external_body]
